@@ -221,13 +221,14 @@ class LDAWrapper(LinearSolver):
                 # Remove all previous components that are already in the database (orthogonalize)
                 xadd = xnew[isel, i]
                 badd = (A @ xnew[..., i])[isel, ...]
+                bnrm0 = np.linalg.norm(badd)
                 for x, b in zip(x_data, b_data):
                     beta = badd @ b.conj() / (b.conj() @ b)
-                    badd -= beta * b
-                    xadd -= beta * x
+                    badd = badd - beta * b  # Not in-place: a real vector may get complex components
+                    xadd = xadd - beta * x
                 bnrm = np.linalg.norm(badd)
-                if not np.isfinite(bnrm) or bnrm == 0:
-                    continue
+                if not np.isfinite(bnrm) or bnrm <= self.tol * bnrm0:
+                    continue  # (Numerically) linearly dependent on the database: only round-off is left
                 badd /= bnrm
                 xadd /= bnrm
                 x_data.append(xadd)
